@@ -56,3 +56,30 @@ package database
 //@   trusted
 //@   requires q != nil
 //@   event firedTrigger(arg.Eon, content(arg.Identity), arg.BlockNumber)
+//@
+//@ // C15: ghost traces of the rollback writes (delete-from block number, new sync position)
+//@ evdecl delTrigRegs(Int)
+//@ evdecl delFired(Int)
+//@ evdecl delIdRegs(Int)
+//@ evdecl setIdSynced(Int)
+//@ evdecl setMultiSynced(Int)
+//@ func (*Queries).DeleteEventTriggerRegisteredEventsFromBlockNumber
+//@   trusted
+//@   requires q != nil
+//@   event delTrigRegs(blockNumber)
+//@ func (*Queries).DeleteFiredTriggersFromBlockNumber
+//@   trusted
+//@   requires q != nil
+//@   event delFired(blockNumber)
+//@ func (*Queries).DeleteIdentityRegisteredEventsFromBlockNumber
+//@   trusted
+//@   requires q != nil
+//@   event delIdRegs(blockNumber)
+//@ func (*Queries).SetIdentityRegisteredEventSyncedUntil
+//@   trusted
+//@   requires q != nil
+//@   event setIdSynced(arg.BlockNumber)
+//@ func (*Queries).SetMultiEventSyncStatus
+//@   trusted
+//@   requires q != nil
+//@   event setMultiSynced(arg.BlockNumber)
